@@ -143,6 +143,8 @@ func (e *eng) knownWitnesses() {
 				fmt.Sprintf("FAT12 4 MiB: new file, Seek(10), Write(nil): listed size %d (want 0); file of exactly one cluster, Write([]byte{}) at EOF: %q", grown, panicked))
 		}
 	}
+	e.writeToDirWitness()
+	e.renameOverDirWitness()
 	// fat32-geometry-narrow-integers: sectors-per-FAT is a uint16 and wraps above 256 GiB
 	if e.prop != "C01" {
 		if v, err := mkVol(volCfg{Kind: 32, Size: 300 * gib, BS: 512}); err == nil {
@@ -155,3 +157,105 @@ func (e *eng) knownWitnesses() {
 }
 
 func errClassStr(s string) string { return errClass(fmt.Errorf("%s", s)) }
+
+// writeToDirWitness replays fat-write-to-directory (C01): OpenFile(dir, O_RDWR) hands out a writable
+// handle for a directory and a Write through it lands in the directory's first cluster, over the
+// entries stored there.
+func (e *eng) writeToDirWitness() {
+	if e.prop == "C08" {
+		return
+	}
+	v, err := mkVol(volCfg{Kind: 12, Size: 64 * kib})
+	if err != nil {
+		return
+	}
+	openErr, writeErr, listed := "", "", false
+	_ = safely(func() error {
+		if err := v.fs.Mkdir("Q"); err != nil {
+			return err
+		}
+		f, err := v.fs.OpenFile("Q/inside.txt", os.O_CREATE|os.O_RDWR)
+		if err != nil {
+			return err
+		}
+		f.Close()
+		h, err := v.fs.OpenFile("Q", os.O_RDWR)
+		if err != nil {
+			openErr = err.Error()
+		} else {
+			if _, err := h.Write(payload(3, 200)); err != nil {
+				writeErr = err.Error()
+			}
+			h.Close()
+		}
+		return nil
+	})
+	_ = safely(func() error {
+		des, err := v.fs.ReadDir("Q")
+		if err != nil {
+			return err
+		}
+		for _, de := range des {
+			if de.Name() == "inside.txt" {
+				listed = true
+			}
+		}
+		return nil
+	})
+	e.c.Known("fat-write-to-directory", openErr == "" && writeErr == "" && !listed,
+		fmt.Sprintf("FAT12 64 KiB: Mkdir(Q), create Q/inside.txt, OpenFile(Q, O_RDWR): %q, Write(200 bytes): %q; ReadDir(Q) lists inside.txt: %v", openErr, writeErr, listed))
+}
+
+// renameOverDirWitness replays fat-rename-over-directory: Rename(file, existing directory) drops the
+// directory's entry; what lay below it is unreachable (C01) and its clusters stay marked used (C08).
+func (e *eng) renameOverDirWitness() {
+	v, err := mkVol(volCfg{Kind: 32, Size: 200 * kib, BS: 512})
+	if err != nil {
+		return
+	}
+	renErr, dIsDir, innerErr := "not run", false, ""
+	_ = safely(func() error {
+		if err := v.fs.Mkdir("D/E"); err != nil {
+			return err
+		}
+		for _, p := range []string{"D/E/inner.txt", "plain.txt"} {
+			f, err := v.fs.OpenFile(p, os.O_CREATE|os.O_RDWR)
+			if err != nil {
+				return err
+			}
+			if _, err := f.Write(payload(5, 700)); err != nil {
+				return err
+			}
+			f.Close()
+		}
+		renErr = ""
+		if err := v.fs.Rename("plain.txt", "D"); err != nil {
+			renErr = err.Error()
+		}
+		return nil
+	})
+	_ = safely(func() error {
+		if des, err := v.fs.ReadDir("."); err == nil {
+			for _, de := range des {
+				if de.Name() == "D" && de.IsDir() {
+					dIsDir = true
+				}
+			}
+		}
+		if _, err := v.fs.ReadDir("D/E"); err != nil {
+			innerErr = err.Error()
+		}
+		return nil
+	})
+	orphans := len(v.raw().Orphans)
+	msg := fmt.Sprintf("FAT32 200 KiB: Mkdir(D/E), create D/E/inner.txt and plain.txt, Rename(plain.txt, D): %q; D still a directory: %v; ReadDir(D/E): %q; lost clusters: %d", renErr, dIsDir, innerErr, orphans)
+	tree := renErr == "" && !dIsDir && innerErr != ""
+	switch e.prop {
+	case "C01":
+		e.c.Known("fat-rename-over-directory", tree, msg)
+	case "C08":
+		e.c.Known("fat-rename-over-directory", renErr == "" && orphans > 0, msg)
+	default:
+		e.c.Known("fat-rename-over-directory", renErr == "" && (tree || orphans > 0), msg)
+	}
+}
